@@ -498,6 +498,7 @@ fn one_case(rng: &mut Rng, rep: &mut Report, n_queries: usize, small: bool, dead
     if deadline.is_none() {
         rep.count(&format!("graph.max_depth.{}", sc.max_depth().min(8)));
         if sc.has_diamond() { rep.count("graph.with_diamond"); }
+        if sc.has_redundant_edge() { rep.count("graph.with_redundant_edge"); }
     }
     if sc.entities.iter().any(|e| !e.in_set) { rep.count("graph.with_entity_absent_from_mappings"); }
     if sc.n_providers > 1 { rep.count("graph.split_over_several_providers"); }
@@ -661,6 +662,7 @@ fn main() {
         meta.oblige("owner without entry and intermediate without entry both seen", rep.get("q.member.walk_cat.owner_without_entry") > 0 && rep.get("q.member.walk_cat.intermediate_without_entry") > 0);
         meta.oblige("identity fallback with a descriptor that changes", rep.get("q.member.identity_fallback.descriptor_remapped") > 0);
         meta.oblige("hit at depth >= 4", (4..=7).any(|d| rep.get(&format!("q.member.hit_depth.{d}")) > 0));
+        meta.oblige("graphs where a direct super type is also reachable through another direct super type (redundant edge)", rep.get("graph.with_redundant_edge") >= 100);
         meta.oblige("graphs with diamonds, with several providers, with members declared twice", rep.get("graph.with_diamond") > 0 && rep.get("graph.split_over_several_providers") > 0 && rep.get("graph.member_declared_twice") > 0);
         meta.oblige("descriptors with 255 dimensions", rep.get("q.desc.255_dimensions") > 0);
         meta.oblige("every descriptor kind and array class names queried", ["q.desc.field", "q.desc.method", "q.desc.return", "q.class.array"].iter().all(|k| rep.get(k) > 0));
